@@ -20,6 +20,7 @@ ASSUMPTIONS = [
     "service_mode_entered event",
 ]
 FLIPPERS = ["f1", "f2", "f3", "f4"]
+PAIR = ["f5", "f6"]        # share a button and a coil, handed over by one event (never both enabled)
 AUTOFIRES = ["af1", "af2", "af3"]
 DEVICES = FLIPPERS + AUTOFIRES + ["kb1"]
 AF_SW = {"af1": "s_af1", "af2": "s_af2", "af3": "s_af3", "kb1": "s_kb"}
@@ -31,7 +32,7 @@ def expected_rules(m):
 
     def key(sw, coil):
         return (sw.hw_switch.number, coil.hw_driver.number)
-    for n in FLIPPERS:
+    for n in FLIPPERS + PAIR:
         f = m.flippers[n]
         if not f._enabled:       # pylint: disable=protected-access
             continue
@@ -63,7 +64,7 @@ def actual_rules(m):
 
 
 def dev(m, n):
-    if n in FLIPPERS:
+    if n in FLIPPERS or n in PAIR:
         return m.flippers[n]
     if n in AUTOFIRES:
         return m.autofire_coils[n]
@@ -72,6 +73,8 @@ def dev(m, n):
 
 dev_i = st.sampled_from(DEVICES)
 common = [
+    st.tuples(st.just("novice"), st.booleans()).map(list),
+    st.tuples(st.just("novice"), st.booleans()).map(list),
     st.tuples(st.just("flip"), st.sampled_from(FLIPPERS)).map(list),
     st.tuples(st.just("release"), st.sampled_from(FLIPPERS)).map(list),
     st.tuples(st.just("hits"), st.sampled_from(list(AF_SW)), st.integers(1, 5), st.sampled_from([0, 10, 50, 100])).map(list),
@@ -90,8 +93,24 @@ explicit = [
 game_ops = [st.just(["start"]), st.just(["start"]), st.just(["drain"]), st.just(["drain"]), st.just(["end_game"]),
             st.just(["tilt"]), st.just(["service_enter"]), st.just(["service_exit"]), st.just(["kb_on"])]
 flips = [st.tuples(st.just("flip"), st.sampled_from(FLIPPERS)).map(list)] * 3
-burst = [st.tuples(st.just("hits"), st.just("af2"), st.integers(3, 5), st.sampled_from([0, 10, 50])).map(list)] * 2
-case_rules = st.fixed_dictionaries({"ops": st.lists(st.one_of(common + explicit + flips + burst), min_size=3, max_size=50)})
+burst = [st.tuples(st.just("hits"), st.just("af2"), st.integers(3, 5), st.sampled_from([0, 0, 10, 50])).map(list)] * 2
+# requests arriving while the timeout protection has paused af2 (its delayed re-enable is pending for 500 ms)
+paused = [st.tuples(st.just("paused"), st.lists(st.sampled_from([["enable", "af2", "call"], ["enable", "af2", "event"],
+                                                               ["disable", "af2", "call"], ["disable", "af2", "event"],
+                                                               ["advance", 100], ["advance", 250]]),
+                                               min_size=1, max_size=4)).map(list)] * 2
+def _expand(ops):
+    out = []
+    for o in ops:
+        if o[0] == "paused":
+            out += [["enable", "af2", "call"], ["hits", "af2", 4, 0]] + o[1] + [["advance", 600]]
+        else:
+            out.append(o)
+    return out
+
+
+case_rules = st.fixed_dictionaries({"ops": st.lists(st.one_of(common + explicit + flips + burst + paused), min_size=3,
+                                                    max_size=50).map(_expand)})
 case_life = st.fixed_dictionaries({"ops": st.lists(st.one_of(common + game_ops + game_ops + flips + burst), min_size=3,
                                                    max_size=50).map(lambda l: [["start"]] + l)})
 
@@ -145,12 +164,12 @@ def run(case, lifecycle):
             if lifecycle:
                 quiet = m.game is None or not phase["ball"] or phase["service"]
                 if quiet:
-                    fl = [n for n in FLIPPERS + AUTOFIRES if dev(m, n)._enabled]     # pylint: disable=protected-access
+                    fl = [n for n in FLIPPERS + PAIR + AUTOFIRES if dev(m, n)._enabled]     # pylint: disable=protected-access
                     rules = {k: val for k, val in act.items() if k[1] != m.coils["c_kb"].hw_driver.number}
                     if fl or rules:
                         v("rules-outside-ball", "%s: no ball in play (game=%r, service=%r) but devices %r are enabled / rules %r "
                           "installed" % (where, m.game is not None, phase["service"], fl, rules))
-                    hot = [c for c in ("c_main1", "c_hold1", "c_main2", "c_main3", "c_hold3", "c_main4")
+                    hot = [c for c in ("c_main1", "c_hold1", "c_main2", "c_main3", "c_hold3", "c_main4", "c_main5")
                            if getattr(m.coils[c].hw_driver, "state", None) == "enabled"]
                     if hot:
                         v("flipper-coil-energised", "%s: no ball in play but flipper coil(s) %r are still enabled" % (where, hot))
@@ -186,6 +205,14 @@ def run(case, lifecycle):
                         ev.post("dis_" + o[1])
                     rig.run_ready()
                     wanted[o[1]] = False
+                elif k == "novice":
+                    # (in the lifecycle sub-check the hand-over is only requested while a ball is in play: an enable
+                    # requested outside a ball is the case's own doing, not a leftover)
+                    if not lifecycle or (m.game is not None and phase["ball"] and not phase["service"]):
+                        ev.post("novice_on" if o[1] else "novice_off")
+                        rig.run_ready()
+                        classes.add("hand-over between two flippers on one button")
+                        wanted["f5"], wanted["f6"] = bool(o[1]), not o[1]
                 elif k == "flip":
                     ev.post("flip_" + o[1])
                     rig.run_ready()
@@ -266,6 +293,9 @@ def run(case, lifecycle):
                 break
             if rig.exceptions:
                 v("loop-exception", "exception reached the loop after %r: %s" % (o, rig.exception_summaries()[:2]))
+            if lifecycle and k in ("start", "drain", "end_game", "tilt", "service_enter", "service_exit"):
+                wanted.pop("f5", None)
+                wanted.pop("f6", None)
             invariant("after %r" % (o,))
         if not vio:
             rig.advance(2.0)
